@@ -27,7 +27,7 @@ _CMP = {
     ast.GtE: operator.ge, ast.Is: operator.is_, ast.IsNot: operator.is_not,
     ast.In: lambda a, b: a in b, ast.NotIn: lambda a, b: a not in b,
 }
-_BIN = {ast.Add: operator.add, ast.Sub: operator.sub, ast.Mult: operator.mul, ast.FloorDiv: operator.floordiv,
+_BIN = {ast.Add: operator.add, ast.Sub: operator.sub, ast.Mult: operator.mul, ast.FloorDiv: operator.floordiv, ast.Div: operator.truediv,
         ast.Mod: operator.mod, ast.BitAnd: operator.and_, ast.BitOr: operator.or_, ast.BitXor: operator.xor,
         ast.LShift: lambda a, b: a << b if isinstance(b, int) and 0 <= b <= 64 else UNKNOWN,
         ast.RShift: lambda a, b: a >> b if isinstance(b, int) and 0 <= b <= 64 else UNKNOWN,
@@ -122,6 +122,14 @@ class Evaluator:
                 return {"len": len, "int": int, "bool": bool, "min": min, "max": max, "abs": abs, "round": round, "float": float}[e.func.id](*vals)
             except Exception:
                 return UNKNOWN
+        if isinstance(e, ast.Call) and len(e.args) == 1 and not e.keywords and (
+                (isinstance(e.func, ast.Attribute) and isinstance(e.func.value, ast.Name) and e.func.value.id in ("math", "np", "numpy")
+                 and e.func.attr in ("ceil", "floor", "trunc")) or (isinstance(e.func, ast.Name) and e.func.id in ("ceil", "floor", "trunc"))):
+            v = self.ev(e.args[0], depth)
+            if isinstance(v, (int, float)) and not isinstance(v, bool):
+                import math
+                return getattr(math, e.func.attr if isinstance(e.func, ast.Attribute) else e.func.id)(v)
+            return UNKNOWN
         if isinstance(e, ast.Call) and isinstance(e.func, ast.Attribute) and e.func.attr in ("bit_length", "bit_count") and not e.args:
             v = self.ev(e.func.value, depth)
             if isinstance(v, int) and not isinstance(v, bool):
